@@ -98,14 +98,36 @@ theorem local_guarded (s : St) (wr : Nat) (h : s.trkEnt.reacting = false ∨ s.t
     `EntityWorldLocal` data of `e` is unchanged unless the step applies `ewrInsertLocal` / `ewrCleanupData` on `e`, or `e`
     dies in it. Runs of the reactor for other entities, other reactors, events and despawns of others do not touch it. -/
 theorem local_data_moves_only_by_reactor_commands {p : Prog} {hh : Hist} {s s' : St} (ht : tick p hh s = some s') (e : Nat) :
-    s'.ewLocal e = s.ewLocal e ∨ (s.alive e = true ∧ s'.alive e = false) ∨ ∃ c, nextCmd s = some c ∧ touchesLocal e c :=
+    s'.ewLocal e = s.ewLocal e ∨ (s.alive e = true ∧ s'.alive e = false) ∨ (∃ c, nextCmd s = some c ∧ touchesLocal e c) ∨
+    startsRunFor e s :=
   local_stable ht e
 
-/-- **A run caused by an entity exposes exactly the data attached when the entity was added**: if the data was `v` at some
-    point, the entity stayed alive and no add / remove command for it was applied since, a run whose tracker names that entity
-    reads `(entity, v)`. -/
+/-- **... as last modified by earlier runs for it**: the scripted body of an entity world reactor writes the local data of
+    the entity that caused the run through `EntityLocal::get_mut` (it adds 100); the value a run reads is the one the previous
+    run for that entity left. What `bumpLocal` does to the entity the tracker names ... -/
+theorem run_modifies_own_data (s : St) (wr e v : Nat) (h : readLocal s wr = some (e, v)) :
+    alookup ((bumpLocal s (some wr)).ewLocal e) wr = some (v + 100) := by
+  have aset_lookup : ∀ (l : List (Nat × Nat)), alookup (aset l wr (v + 100)) wr = some (v + 100) := by
+    intro l; induction l with
+    | nil => simp [aset, alookup]
+    | cons x l ih =>
+      obtain ⟨a, b⟩ := x
+      by_cases hab : a = wr
+      · simp [aset, alookup, hab]
+      · simp [aset, alookup, hab, ih]
+  simp [bumpLocal, h, upd, aset_lookup]
+
+/-- ... and to nobody else's. -/
+theorem run_leaves_other_data (s : St) (w : Option Nat) (e : Nat) (h : ∀ wr v, w = some wr → readLocal s wr ≠ some (e, v)) :
+    (bumpLocal s w).ewLocal e = s.ewLocal e := bumpLocal_ewLocal_other s w e h
+
+/-- **A run caused by an entity exposes exactly the data attached when the entity was added, as last modified by earlier
+    runs for it**: if the data was `v` at some point — after the add, or after the last run for that entity —, the entity
+    stayed alive and since then no add / remove command for it was applied and no run of the reactor for it started, a run
+    whose tracker names that entity reads `(entity, v)`. -/
 theorem run_reads_attached_data {p : Prog} {hh : Hist} (wr src v : Nat) {s s' : St}
-    (h : QuietRun p hh (fun x => (∃ c, nextCmd x = some c ∧ touchesLocal src c) ∨ x.alive src = false) s s') (ha : s'.alive src = true)
+    (h : QuietRun p hh (fun x => ((∃ c, nextCmd x = some c ∧ touchesLocal src c) ∨ startsRunFor src x) ∨ x.alive src = false) s s')
+    (ha : s'.alive src = true)
     (hv : alookup (s.ewLocal src) wr = some v)
     (hr : s'.trkEnt.reacting = true) (hsys : s'.trkEnt.curSys = s'.ewrSys wr) (hsrc : s'.trkEnt.curSrc = src) :
     readLocal s' wr = some (src, v) :=
